@@ -67,6 +67,11 @@ Proof.
   - rewrite ExtractRefine.exec_get_contracts_is_get_contracts. exact G.
   - rewrite ExtractRefine.exec_unwrap_is_unwrap. cbv zeta in U. rewrite U. reflexivity.
 Qed.
+(* the fuel of the model is not a truncation: on a __wrapped__ chain that ends after n links, S n steps report everything *)
+Theorem C14_fuel_adequate : forall h f n, ExtractRefine.chain_len h f n ->
+  forall k seen, get_contracts (S n + k) h f seen = get_contracts (S n) h f seen.
+Proof. exact ExtractRefine.fuel_adequate. Qed.
+Print Assumptions C14_fuel_adequate.
 Print Assumptions C14_code_refines_model.
 Print Assumptions C14_code_exact.
 
